@@ -465,12 +465,14 @@ def session(ctx, rng, idx, vocab_base):
     after = state_snapshot(svc)
     if after != before:
         ctx.violation("C07/service-state-changed", "the service's state differs after the session", wit)
+    why = None
     try:
         ok = sib.a.root.ping(("sib", idx)) == ("sib", idx) and sib_item.exposed_k == 1
-    except Exception as e:
+    except BaseException as e:
         ok = False
+        why = "%s: %s" % (type(e).__name__, str(e)[:300])
     if not ok:
-        ctx.violation("C07/sibling-connection-broken", "a well-behaved connection to the same service stopped working", wit)
+        ctx.violation("C07/sibling-connection-broken", "a well-behaved connection to the same service stopped working (%s)" % (why,), wit)
     del sib_item
     sib.close()
     try:
